@@ -104,21 +104,39 @@ template <class F, int D> __attribute__((flatten)) static void t_lin() {
 }
 
 // ------------------------------------------------------------------------------------------------ reductions, minimize / maximize (no NaN)
-template <class F, int D> __attribute__((flatten)) static void t_red() {
-  Sym<F, D> x; typedef VectorT<F, D> V;
-  v_assume(!x.has_nan2());
-  F mx = x.va.max(), mn = x.va.min(), mxa = x.va.max_abs(), mna = x.va.min_abs(), l8 = x.va.l8_norm();
-  bool mx_att = false, mn_att = false, mxa_att = false, mna_att = false;
+// max()/min(): a bound of all components that is attained
+template <class F, int D> __attribute__((flatten)) static void t_maxmin() {
+  SymA<F, D> x;
+  v_assume(!x.has_nan());
+  F mx = x.va.max(), mn = x.va.min();
+  bool mx_att = false, mn_att = false;
   for (int i = 0; i < D; ++i) {
-    F ab = fabs_(x.a[i]);
-    V_ASSERT(mx >= x.a[i] && mn <= x.a[i] && mxa >= ab && mna <= ab);
+    V_ASSERT(mx >= x.a[i] && mn <= x.a[i]);
     if (mx == x.a[i]) mx_att = true;
     if (mn == x.a[i]) mn_att = true;
+  }
+  V_ASSERT(mx_att && mn_att);
+  v_witness("fp max/min");
+}
+// max_abs()/min_abs()/l8_norm(): bounds of all |x_i| that are attained
+template <class F, int D> __attribute__((flatten)) static void t_maxabs() {
+  SymA<F, D> x;
+  v_assume(!x.has_nan());
+  F mxa = x.va.max_abs(), mna = x.va.min_abs(), l8 = x.va.l8_norm();
+  bool mxa_att = false, mna_att = false;
+  for (int i = 0; i < D; ++i) {
+    F ab = fabs_(x.a[i]);
+    V_ASSERT(mxa >= ab && mna <= ab);
     if (mxa == ab) mxa_att = true;
     if (mna == ab) mna_att = true;
   }
-  V_ASSERT(mx_att && mn_att && mxa_att && mna_att);
+  V_ASSERT(mxa_att && mna_att);
   V_ASSERT(l8 == mxa);
+  v_witness("fp max_abs/min_abs/l8_norm");
+}
+template <class F, int D> __attribute__((flatten)) static void t_red() {
+  Sym<F, D> x; typedef VectorT<F, D> V;
+  v_assume(!x.has_nan2());
   V mi = x.va.min(x.vb), ma = x.va.max(x.vb);
   V mz(x.va); mz.minimize(x.vb);
   V xz(x.va); xz.maximize(x.vb);
@@ -249,16 +267,23 @@ template <class F, int D> __attribute__((flatten)) static void t_normalize_cond(
   F n = o_norm<F, D>(x.a);
   V nc(x.va); V &r2 = nc.normalize_cond();
   V_ASSERT(&r2 == &nc);
-  for (int i = 0; i < D; ++i) V_ASSERT(same(nc[(size_t)i], n != (F)0 ? x.a[i] / n : x.a[i]));
-  if (n != (F)0) v_witness("fp normalize_cond: non-zero norm");
-  if (n == (F)0) v_witness("fp normalize_cond: zero norm");
-  v_witness("fp normalize_cond");
+  if (n != (F)0) {
+    for (int i = 0; i < D; ++i) V_ASSERT(same(nc[(size_t)i], x.a[i] / n));
+    v_witness("fp normalize_cond: non-zero norm");
+  }
+  if (n == (F)0) {
+    for (int i = 0; i < D; ++i) V_ASSERT(same(nc[(size_t)i], x.a[i]));   // left unchanged
+    v_witness("fp normalize_cond: zero norm");
+  }
+  v_witness("fp normalize_cond: end");
 }
 
 #define ENTRIES(F, D, tag) \
   extern "C" void harness_ctor_##tag() { t_ctor<F, D>(); } \
   extern "C" void harness_lin_##tag() { t_lin<F, D>(); } \
   extern "C" void harness_red_##tag() { t_red<F, D>(); } \
+  extern "C" void harness_maxmin_##tag() { t_maxmin<F, D>(); } \
+  extern "C" void harness_maxabs_##tag() { t_maxabs<F, D>(); } \
   extern "C" void harness_mean_##tag() { t_mean<F, D>(); } \
   extern "C" void harness_l1_##tag() { t_l1<F, D>(); } \
   extern "C" void harness_mul_##tag() { t_mul<F, D>(); } \
